@@ -279,7 +279,7 @@ def _worker(args):
                     ctx.cur_buckets = set()
                     mod.run_case(ctx, case)
                     ctx.count('sweep_cases')
-        if hasattr(mod, 'bulk'):
+        if hasattr(mod, 'bulk') and (os.environ.get('VF_ALIEN') != '1' or getattr(mod, 'ALIEN_BULK', False)):   # the child interpreter runs sweep + random cases only
             mod.bulk(ctx, tier, shard, nshards)
         per = n_random // nshards + (1 if shard < n_random % nshards else 0)
         run_random(mod, ctx, per, seed_value * 1000 + shard)
@@ -325,9 +325,55 @@ def write_evidence(mod, ctx, wall, n_viol, extra=None):
     os.replace(path + '.tmp', path)
 
 
+# ---------------------------------------------------------------------------
+# the same check once more in a differently configured interpreter
+
+ALIEN_FLAGS = ['-O', '-bb']          # asserts removed; str() of bytes and bytes/str comparisons are errors
+ALIEN_ENV = {'LC_ALL': 'C', 'LANG': 'C', 'PYTHONUTF8': '0', 'PYTHONCOERCECLOCALE': '0', 'PYTHONIOENCODING': 'utf-8'}
+ALIEN_N = {'quick': 150, 'thorough': 2000}
+
+
+def run_alien(pid, tier, seed_value, replay_path=None):
+    """What the library answers must not depend on how the interpreter was started.  The interpreter flags and the locale are fixed at
+    start-up, so the check is run once more, with a reduced case count, in a child interpreter started with -O -bb under the C locale
+    without UTF-8 mode.  -> None (already inside such a child, or switched off) or (returncode, output, directory with its replay files)"""
+    if os.environ.get('VF_ALIEN') == '1' or os.environ.get('VF_NO_ALIEN') == '1':
+        return None
+    import subprocess
+    import tempfile
+    out = tempfile.mkdtemp(prefix='vfalien_')
+    env = {k: v for k, v in os.environ.items() if not k.startswith('LC_') and k not in ('LANG', 'LANGUAGE')}
+    env.update(ALIEN_ENV)
+    env.update({'VF_ALIEN': '1', 'VF_OUT': out, 'VF_REPO': REPO, 'VERIF_SEED': str(seed_value), 'PYTHONHASHSEED': '0', 'PYTHONDONTWRITEBYTECODE': '1'})
+    cmd = [sys.executable] + ALIEN_FLAGS + ['-m', 'vf.run', pid, '--tier', 'quick', '--no-shrink']
+    cmd += ['--replay', os.path.abspath(replay_path)] if replay_path else ['--n', str(ALIEN_N.get(tier, 150)), '--shards', '4']
+    p = subprocess.run(cmd, cwd=VERIF, env=env, stdout=subprocess.PIPE, stderr=subprocess.STDOUT, text=True, errors='replace')
+    return p.returncode, p.stdout, out
+
+
+def importlib_id(modname):
+    import importlib
+    return importlib.import_module(modname).ID
+
+
 def main_check(modname, tier, seed_value, replay_path=None, nshards=None, n_override=None, no_shrink=False):
     t0 = time.time()
     use_repo()
+    if replay_path and os.environ.get('VF_ALIEN') != '1':
+        try:
+            with open(replay_path) as fh:
+                is_alien = bool(json.load(fh).get('alien'))
+        except Exception:  # noqa
+            is_alien = False
+        if is_alien:
+            # a finding of the child interpreter replays in a child interpreter
+            r = run_alien(importlib_id(modname), tier, seed_value, replay_path)
+            if r is not None:
+                rc, text, out = r
+                import shutil
+                shutil.rmtree(out, ignore_errors=True)
+                sys.stdout.write(text)
+                return rc
     import importlib
     mod = importlib.import_module(modname)
     pid = mod.ID
@@ -373,7 +419,7 @@ def main_check(modname, tier, seed_value, replay_path=None, nshards=None, n_over
 
     # vacuity floors
     complaints = []
-    if not replay_path and hasattr(mod, 'floors'):
+    if not replay_path and hasattr(mod, 'floors') and os.environ.get('VF_ALIEN') != '1' and n_override is None:
         complaints = list(mod.floors(ctx))
 
     # shrink + write replay for new buckets
@@ -411,15 +457,56 @@ def main_check(modname, tier, seed_value, replay_path=None, nshards=None, n_over
     if not replay_path:
         write_evidence(mod, ctx, wall, len(new), extra)
 
+    # once more in a child interpreter started with -O -bb under the C locale (not for replays, not inside such a child)
+    alien_viol = []
+    if not replay_path and n_override is None:
+        r = run_alien(pid, tier, seed_value)
+        if r is not None:
+            import shutil
+            rc, text, out = r
+            summary = next((l for l in text.splitlines() if l.startswith(pid + ' tier=')), '')
+            if rc == EXIT_HARNESS or (rc not in (EXIT_OK, EXIT_VIOLATION)):
+                shutil.rmtree(out, ignore_errors=True)
+                print('HARNESS-ERROR property=%s child interpreter (%s): exit %s\n%s' % (pid, ' '.join(ALIEN_FLAGS), rc, text[-1500:]))
+                return EXIT_HARNESS
+            if rc == EXIT_VIOLATION:
+                src = os.path.join(out, 'replay', pid)
+                os.makedirs(new_dir, exist_ok=True)
+                for fn in sorted(os.listdir(src)) if os.path.isdir(src) else []:
+                    with open(os.path.join(src, fn)) as fh:
+                        doc = json.load(fh)
+                    doc['alien'] = True
+                    doc['bucket'] = 'interpreter=-O,-bb,C-locale|' + doc['bucket']
+                    if known.match(pid, doc['bucket']) is not None:
+                        known_hits[known.match(pid, doc['bucket'])] += doc.get('count_in_run', 1)
+                        continue
+                    path = os.path.join(new_dir, 'alien_' + fn)
+                    with open(path, 'w') as fh:
+                        json.dump(doc, fh, indent=1, sort_keys=True)
+                    alien_viol.append((doc['bucket'], doc, path))
+            shutil.rmtree(out, ignore_errors=True)
+            try:
+                ev_path = os.path.join(OUT, 'evidence', pid + '.json')
+                with open(ev_path) as fh:
+                    ev = json.load(fh)
+                ev.setdefault('coverage', {})['child_interpreter'] = {'flags': ALIEN_FLAGS, 'environment': ALIEN_ENV, 'result': summary, 'violations': len(alien_viol)}
+                with open(ev_path, 'w') as fh:
+                    json.dump(ev, fh, indent=1, sort_keys=True)
+            except Exception:  # noqa
+                pass
+
     for (p, b), text in sorted(known.open.items()):
         if p == pid:
             print('KNOWN-FINDING: property=%s bucket=%s %s (cases this run: %d)' % (pid, b, text, known_hits.get(b, 0)))
+    for b, doc, path in alien_viol:
+        print('  bucket=%s count=%d :: %s' % (b, doc.get('count_in_run', 1), doc.get('detail', '')[:400]))
+        print('VIOLATION property=%s replay=%s' % (pid, path))
     for b, f, path in viol_lines:
         print('  bucket=%s count=%d :: %s' % (b, f['count'], f['detail'][:400]))
         print('VIOLATION property=%s replay=%s' % (pid, path))
     print('%s tier=%s seed=%d evaluations=%d distinct_nontrivial=%d new_buckets=%d known_buckets=%d wall=%.1fs' % (
         pid, tier, seed_value, ctx.evaluations, len(ctx.nontrivial) + ctx.counters.get('bulk_nontrivial', 0), len(new), len(known_hits), wall))
-    if new:
+    if new or alien_viol:
         return EXIT_VIOLATION
     if complaints:
         print('HARNESS-ERROR property=%s vacuous run: %s' % (pid, '; '.join(complaints)))
